@@ -54,8 +54,7 @@ func RunCase(c Case) ([]Line, error) {
 		st := map[string]LedgerObs{}
 		for _, l := range c.Ledgers {
 			if !created[l.Name] {
-				st[l.Name] = LedgerObs{Txs: []TxObs{}, Accts: []AcctObs{}, Logs: []LogObs{}, Vols: []VolB{}, Agg: []AggB{}}
-				continue
+				continue // a ledger that does not exist yet is absent from the observation
 			}
 			o, err := env.Observe(l.Name)
 			if err != nil {
